@@ -2,7 +2,7 @@ import PcbV.Model.MiniBasic
 /-
   Driver for C19: `run <fixed 0|1> <fuel> <program>`; the whole program travels in one word:
     lines separated by `|`, a line is `<number>:<stmt>;<stmt>…`, statement fields separated by `,`,
-    expressions are prefix token lists separated by `_` (`n<int>`, `v<index>`, add sub lt le eq ne gt ge),
+    expressions are prefix token lists separated by `_` (`n<int>`, `v<index>`, `f<int>/<nat>`, add sub lt le eq ne gt ge),
     an absent line number / step is `-`.
   Reply: `ok <printed values, comma separated or -> <end | err<n> | fuel>`.
 -/
@@ -18,6 +18,10 @@ def parseTok (t : String) : Option (Sum Expr BinOp) :=
     match t.toList with
     | 'n' :: rest => (String.ofList rest).toInt?.map (fun n => .inl (.lit n))
     | 'v' :: rest => (String.ofList rest).toNat?.map (fun n => .inl (.var n))
+    | 'f' :: rest =>
+      match (String.ofList rest).splitOn "/" with
+      | [n, d] => do pure (.inl (.frac (← n.toInt?) (← d.toNat?)))
+      | _ => none
     | _ => none
 
 /-- prefix expression parser; fuel = number of tokens -/
